@@ -268,6 +268,10 @@ impl TreeGen {
 		if self.locked.contains(&(c, k)) {
 			return None
 		}
+		if r.chance(1, 3) {
+			// fetch the handle now, lock it later
+			return Some(Op::TreeHandle(c, k))
+		}
 		self.locked.push((c, k));
 		Some(Op::LockTree(c, k))
 	}
